@@ -124,6 +124,9 @@ func v15RulingIs(st *vState, l *vLeaf, tv *sdcpb.TypedValue) bool {
 // the report is then not demanded, its soundness is)
 var v15FaultMode bool
 
+// v15Ideal: the model cache answers the all-intents read with every intent of a path
+var v15Ideal bool
+
 type v15Counts struct {
 	unhandled  map[string]int            // leaf id
 	notApplied map[string]map[string]int // leaf id -> owner
@@ -249,7 +252,13 @@ func v15AssertCycle(st *vState, msgs []*sdcpb.WatchDeviationResponse) {
 			if c.overruled[l.id][o] == 0 {
 				if v15DiffersFromRuling(st, l, o) { // forks: names the situation
 					verifrt.Reach("overruled-expected")
-					verifrt.Assert(false, "C15-every-deviation-reported/overruled-intent-never-reported")
+					if v15Ideal && st.rpres[l.id] {
+						// the cache hands all intents of the path to the cycle and the path is in
+						// running: this is the situation the OVERRULED branch is written for
+						verifrt.Assert(false, "C15-every-deviation-reported/overruled")
+					} else {
+						verifrt.Assert(false, "C15-every-deviation-reported/overruled-intent-never-reported")
+					}
 				}
 			}
 		}
@@ -295,6 +304,7 @@ func VerifDeviations() {
 	// param "ideal" = 1: the cache answers the all-intents read with the entries of all intents
 	// (the contract runDeviationUpdate is written against); 0: sdcio/cache v0.0.35 as observed
 	env.model.IdealReads = verifrt.Param("ideal", 0) == 1
+	v15Ideal = env.model.IdealReads
 	v15FaultMode = false
 	if verifrt.Param("fault", 0) == 1 {
 		// the k-th schema request of the cycle fails once (transient: the schema client does
